@@ -21,6 +21,11 @@ inductive Err where
   | unpackError           -- `bitstruct.unpack`: not enough data
   | assertionError
   | zeroDivisionError
+  | keyError              -- `d[k]` for a key that is not in the dict
+  | odxError              -- `odxraise(msg)` / `odxraise(msg, OdxError)` in strict mode
+  | encodeError           -- `odxraise(msg, EncodeError)`
+  | decodeError           -- `odxraise(msg, DecodeError)`
+  | foreign               -- any other exception of a called function that is modelled by hand (see `call`)
 deriving Repr, DecidableEq, Inhabited
 
 abbrev M := Except Err
@@ -35,6 +40,12 @@ instance {α : Type} [DecidableEq α] : DecidableEq (M α)
 def unwrap {α : Type} : Option α → M α
   | some a => pure a
   | none => throw .typeError
+
+/-- a call to a function that is NOT translated but stands for a hand-written model function (the spec of the translation
+    names it): its value is the model's value, its exception the model's error class embedded by `f` -/
+def call {ε α : Type} (f : ε → Err) : Except ε α → M α
+  | .ok a => pure a
+  | .error e => throw (f e)
 
 /-- `xs[i]` for `i ≥ 0` -/
 def getItem {α : Type} (xs : List α) (i : Nat) : M α :=
@@ -98,6 +109,30 @@ def insertInt (x : Int) : List Int → List Int
   | [] => [x]
   | y :: ys => if x ≤ y then x :: y :: ys else y :: insertInt x ys
 def sortedInt (xs : List Int) : List Int := xs.foldr insertInt []
+
+/-- `sorted(xs)` for `Tuple[int, int]` elements: tuples compare lexicographically (first components, then second ones);
+    stable insertion sort (elements that compare equal are identical pairs, so stability is unobservable) -/
+def insertIntPair (x : Int × Int) : List (Int × Int) → List (Int × Int)
+  | [] => [x]
+  | y :: ys => if x.1 < y.1 ∨ (x.1 = y.1 ∧ x.2 ≤ y.2) then x :: y :: ys else y :: insertIntPair x ys
+def sortedIntPair (xs : List (Int × Int)) : List (Int × Int) := xs.foldr insertIntPair []
+
+/-- `d[k]` for a dict literal `{k1: v1, …}` with pairwise different keys, rendered as the association list of its items -/
+def dictGet {κ ν : Type} [DecidableEq κ] : List (κ × ν) → κ → M ν
+  | [], _ => throw .keyError
+  | (k, v) :: rest, x => if k = x then pure v else dictGet rest x
+
+/-- `sorted(xs, key=f, reverse=r)` for natural-number keys. Python computes `f(x)` for every element first, in list order (an
+    exception of `f` propagates and nothing is returned), then sorts the elements stably by key: ascending for `reverse=False`,
+    descending for `reverse=True` — and in BOTH cases elements with equal keys keep their original relative order ("the reverse
+    parameter still maintains sort stability"). Insertion from the right: `x` stood before everything already in the list, so
+    it goes in front of the first element that may not precede it. -/
+def insertByKey {α : Type} (r : Bool) (x : Nat × α) : List (Nat × α) → List (Nat × α)
+  | [] => [x]
+  | y :: ys => if (if r then y.1 ≤ x.1 else x.1 ≤ y.1) then x :: y :: ys else y :: insertByKey r x ys
+def sortedByKeyM {α : Type} (f : α → M Nat) (r : Bool) (xs : List α) : M (List α) := do
+  let keys ← xs.mapM f
+  pure (((keys.zip xs).foldr (insertByKey r) []).map (·.2))
 
 /-- divisor of `//` and `%`: zero raises `ZeroDivisionError` -/
 def nonZero (n : Nat) : M Nat := if n = 0 then throw .zeroDivisionError else pure n
